@@ -7,7 +7,9 @@ import (
 	"fmt"
 	"os"
 	"regexp"
+	"runtime/debug"
 	"sort"
+	"strings"
 	"sync"
 	"sync/atomic"
 	"time"
@@ -362,6 +364,136 @@ func structuralTries(nodes [][]byte) [][]byte {
 	return out
 }
 
+// panicSite extracts the frames of the code under test from the current stack (called in recover).
+func panicSite() string {
+	var out []string
+	lines := strings.Split(string(debug.Stack()), "\n")
+	for i := 0; i+1 < len(lines); i++ {
+		if strings.Contains(lines[i], "github.com/0chain/common/") {
+			out = append(out, strings.TrimSpace(lines[i])+" @ "+strings.TrimSpace(lines[i+1]))
+		}
+		if len(out) >= 4 {
+			break
+		}
+	}
+	return "    at " + strings.Join(out, "\n    at ")
+}
+
+// cborItems returns the [start,end) spans of every data item of a well-formed CBOR encoding
+// (definite lengths only; nil if the bytes are not of that form).
+func cborItems(b []byte) [][2]int {
+	var spans [][2]int
+	var item func(i int) int
+	item = func(i int) int {
+		if i >= len(b) {
+			return -1
+		}
+		start := i
+		mt, ai := b[i]>>5, int(b[i]&0x1f)
+		i++
+		var n uint64
+		switch {
+		case ai < 24:
+			n = uint64(ai)
+		case ai == 24:
+			if i+1 > len(b) {
+				return -1
+			}
+			n, i = uint64(b[i]), i+1
+		case ai == 25:
+			if i+2 > len(b) {
+				return -1
+			}
+			n, i = uint64(b[i])<<8|uint64(b[i+1]), i+2
+		case ai == 26:
+			if i+4 > len(b) {
+				return -1
+			}
+			n, i = uint64(b[i])<<24|uint64(b[i+1])<<16|uint64(b[i+2])<<8|uint64(b[i+3]), i+4
+		case ai == 27:
+			if i+8 > len(b) {
+				return -1
+			}
+			for k := 0; k < 8; k++ {
+				n = n<<8 | uint64(b[i+k])
+			}
+			i += 8
+		default:
+			return -1
+		}
+		switch mt {
+		case 2, 3:
+			if n > uint64(len(b)-i) {
+				return -1
+			}
+			i += int(n)
+		case 4:
+			for k := uint64(0); k < n; k++ {
+				if i = item(i); i < 0 {
+					return -1
+				}
+			}
+		case 5:
+			for k := uint64(0); k < 2*n; k++ {
+				if i = item(i); i < 0 {
+					return -1
+				}
+			}
+		case 6:
+			if i = item(i); i < 0 {
+				return -1
+			}
+		}
+		spans = append(spans, [2]int{start, i})
+		return i
+	}
+	if end := item(0); end != len(b) {
+		return nil
+	}
+	return spans
+}
+
+// typeConfusions replaces every data item of a well-formed CBOR encoding (also the items inside the
+// byte strings that themselves hold CBOR: proof and export elements) by items of other types: null,
+// 0, empty byte string, empty array, empty map, a one-element array, true, a huge integer.
+func typeConfusions(b []byte, depth int, emit func([]byte)) {
+	repl := [][]byte{{0xf6}, {0x00}, {0x40}, {0x80}, {0xa0}, {0x81, 0xf6}, {0xf5}, {0x1b, 0xff, 0xff, 0xff, 0xff, 0xff, 0xff, 0xff, 0xff}, {0x60}}
+	for _, sp := range cborItems(b) {
+		for _, r := range repl {
+			emit(append(append(append([]byte{}, b[:sp[0]]...), r...), b[sp[1]:]...))
+		}
+		// a byte string that holds CBOR itself: confuse the inner items and re-wrap with a correct head
+		if depth > 0 && b[sp[0]]>>5 == 2 {
+			hl := 1
+			switch b[sp[0]] & 0x1f {
+			case 24:
+				hl = 2
+			case 25:
+				hl = 3
+			case 26:
+				hl = 5
+			case 27:
+				hl = 9
+			}
+			inner := b[sp[0]+hl : sp[1]]
+			if len(inner) > 2 && cborItems(inner) != nil {
+				typeConfusions(inner, depth-1, func(m []byte) {
+					var head []byte
+					switch {
+					case len(m) < 24:
+						head = []byte{0x40 | byte(len(m))}
+					case len(m) < 256:
+						head = []byte{0x58, byte(len(m))}
+					default:
+						head = []byte{0x59, byte(len(m) >> 8), byte(len(m))}
+					}
+					emit(append(append(append(append([]byte{}, b[:sp[0]]...), head...), m...), b[sp[1]:]...))
+				})
+			}
+		}
+	}
+}
+
 type c15state struct {
 	mu       sync.Mutex
 	rep      *rt.Report
@@ -435,7 +567,7 @@ func C15(tier rt.Tier) int {
 								}
 								key := j.t.name + "|" + digits.ReplaceAllString(msg, "N")
 								if _, dup := failOnce.LoadOrStore(key, true); !dup {
-									rep.Violate(fmt.Sprintf("%s panics on input %x: %v", j.t.name, j.b, r), map[string]any{"target": j.t.name, "input_hex": hex.EncodeToString(j.b)})
+									rep.Violate(fmt.Sprintf("%s panics on input %x: %v\n%s", j.t.name, j.b, r, panicSite()), map[string]any{"target": j.t.name, "input_hex": hex.EncodeToString(j.b)})
 								} else {
 									rep.Add("violations_suppressed_duplicates", 1)
 								}
@@ -492,6 +624,13 @@ func C15(tier rt.Tier) int {
 		for _, c := range corp[t.name] {
 			mutations(c, corp[t.name], thorough, func(m []byte) { emit(m); count++ })
 		}
+		// (d) CBOR type confusion: every data item (also inside embedded elements) replaced by null, 0,
+		// empty string/array/map, ...
+		if t.name != "util.CreateNode" {
+			for _, c := range corp[t.name] {
+				typeConfusions(c, 1, func(m []byte) { emit(m); count++ })
+			}
+		}
 		// (c) structure-aware enumeration of field lengths for the CBOR formats
 		switch t.name {
 		case "wmpt.DeserializeNode":
@@ -523,7 +662,7 @@ func C15(tier rt.Tier) int {
 	rep.Set("accepted_inputs", int(st.accepted))
 	rep.Set("inputs_per_decoder", st.perTgt)
 	rep.Set("corpus_encodings", csize)
-	rep.Set("rule", fmt.Sprintf("for each of the four decoders: ALL byte strings of length <= %d, plus for every real encoding of the corpus (state-trie nodes of every kind, weighted-trie nodes incl. branches with embedded short children, path exports, block proofs; each decoder also sees the other formats): every truncation, every single-byte deletion, every byte value at each of the first 24 (thorough 64) positions and {00,3a,7f,80,ff} (+ every bit flip in thorough) elsewhere, separator duplication, every CBOR head rewritten to every length form incl. 4/8-byte lengths near 2^31/2^63 and indefinite, every splice head(A)+tail(B) at separator/head boundaries; plus a structure-aware enumeration for the CBOR formats: well-formed nodes whose fields take every boundary length (child entries of 0..100 bytes, 0..32 children, short-node key/value/hash lengths, several kinds at once), alone and as first/second element of exports and proofs; oracle: returns value or error without panic within 120 s, anything accepted is re-encoded/hashed/copied without panic; 'states' = corpus encodings; inputs are counted, not deduplicated", maxLen))
+	rep.Set("rule", fmt.Sprintf("for each of the four decoders: ALL byte strings of length <= %d, plus for every real encoding of the corpus (state-trie nodes of every kind, weighted-trie nodes incl. branches with embedded short children, path exports, block proofs; each decoder also sees the other formats): every truncation, every single-byte deletion, every byte value at each of the first 24 (thorough 64) positions and {00,3a,7f,80,ff} (+ every bit flip in thorough) elsewhere, separator duplication, every CBOR head rewritten to every length form incl. 4/8-byte lengths near 2^31/2^63 and indefinite, every splice head(A)+tail(B) at separator/head boundaries; plus a structure-aware enumeration for the CBOR formats: well-formed nodes whose fields take every boundary length (child entries of 0..100 bytes, 0..32 children, short-node key/value/hash lengths, several kinds at once), alone and as first/second element of exports and proofs; and CBOR type confusion: every data item of every corpus encoding, also inside embedded proof/export elements, replaced by null, 0, true, a huge integer, empty byte/text string, empty array, empty map, [null]; oracle: returns value or error without panic within 120 s, anything accepted is re-encoded/hashed/copied without panic; 'states' = corpus encodings; inputs are counted, not deduplicated", maxLen))
 	rep.Sample(map[string]any{"decoder": "util.CreateNode", "input_hex": "02"})
 	if c := corp["wmpt.DeserializeNode"]; len(c) > 0 {
 		rep.Sample(map[string]any{"decoder": "wmpt.DeserializeNode", "corpus_encoding_hex": hex.EncodeToString(c[0])})
